@@ -171,6 +171,10 @@ def check_pair(a_spans, a_rel, b_spans, b_rel, form, u, res):
         ("isdisjoint", lambda: A.isdisjoint(B), all(not ina(x) for x in kb)),
         ("isdisjoint(list)", lambda: A.isdisjoint(list(b_spans)), all(not ina(x) for x in b_spans)),
     ]
+    le_aa = all(ina(x) for x in ka)         # a stored span need not be "in" its own set (start > end under Overlaps)
+    cmp_defs += [("<= (the set with itself)", lambda: A <= A, le_aa), ("== (the set with itself)", lambda: A == A, le_aa),
+                 (">= (the set with itself)", lambda: A >= A, le_aa), ("< (the set with itself)", lambda: A < A, False),
+                 ("isdisjoint (the set with itself)", lambda: A.isdisjoint(A), all(not ina(x) for x in ka))]
     for sym, real, want in cmp_defs:
         n += 1
         got = real()
